@@ -112,7 +112,7 @@ func runC20(tier string, _ []string) int {
 	c := vlib.NewCtx("C20", tier, "exploration")
 	vlib.SetPortBlock(20)
 	raceBuild := strings.Contains(os.Getenv("GORACE"), "log_path")
-	c.SetRule("per history (race-detector build): a fresh instance, 8-32 bus clients on their own connections issue ~150-400 operations against 3 nodes (a chain three deep in every other history, so that one write moves three ancestor hashes) x 2 types x 2 keys: acknowledged node-point and edge-point writes with unique (timestamp, value), node reads (split into one read per identity), admin.storeVerify; a fifth of the clients write through the library's SendNodePoints (1 s deadline), another fifth read and write through the HTTP API (so api handlers run concurrently with bus handlers); ~3% of the operations create a new leaf node below one of the nodes while its ancestors' hashes are moving; random 0-2 ms delays are injected at the store.afterNodeWrite / store.afterEdgeWrite hook sites (between database commit and rebroadcast/reply). Every call is recorded at the client boundary (call time before sending, return time after the reply, one monotonic clock); an unanswered operation stays open to the end of the history. Monitors: (1) porcupine linearizability of each identity's history against a max-timestamp register, (2) every request answered, (3) final content = newest accepted write per identity (C01) with consistent hashes (C03), (4) race detector reports involving simpleiot code, (5) Server.Stop during or after load: Run returns and the same file opens again with the acknowledged writes. distinct = (clients, stop mode, fingerprint class: overlapping pairs bucket, concurrent read/write pairs bucket)")
+	c.SetRule("per history (race-detector build): a fresh instance, 8-32 bus clients on their own connections issue ~150-400 operations against 3 nodes (a chain three deep in every other history, so that one write moves three ancestor hashes) x 2 types x 2 keys: acknowledged node-point and edge-point writes with unique (timestamp, value), node reads (split into one read per identity), admin.storeVerify; a fifth of the clients write through the library's SendNodePoints (1 s deadline), another fifth read and write through the HTTP API (so api handlers run concurrently with bus handlers); ~3% of the operations create a new leaf node below one of the nodes while its ancestors' hashes are moving, ~1% give one of the nodes being written a second placement (mirror); random 0-2 ms delays are injected at the store.afterNodeWrite / store.afterEdgeWrite hook sites (between database commit and rebroadcast/reply). Every call is recorded at the client boundary (call time before sending, return time after the reply, one monotonic clock); an unanswered operation stays open to the end of the history. Monitors: (1) porcupine linearizability of each identity's history against a max-timestamp register, (2) every request answered, (3) final content = newest accepted write per identity (C01) with consistent hashes (C03), (4) race detector reports involving simpleiot code, (5) Server.Stop during or after load: Run returns and the same file opens again with the acknowledged writes. distinct = (clients, stop mode, fingerprint class: overlapping pairs bucket, concurrent read/write pairs bucket)")
 	c.Assume("schedules are sampled, not enumerated; a clean race-detector run means no report on the executed paths")
 	if !raceBuild {
 		c.Assume("this run was NOT built with -race")
@@ -176,6 +176,7 @@ func runC20(tier string, _ []string) int {
 		var hist []*c20Op
 		sent := map[string]map[int64]float64{} // partition -> ts -> value
 		created := map[string]float64{}        // parent/id of acknowledged creations -> value of its point
+		mirrored := map[string]bool{}
 		record := func(o *c20Op) {
 			mu.Lock()
 			hist = append(hist, o)
@@ -312,6 +313,26 @@ func runC20(tier string, _ []string) int {
 								record(&c20Op{Part: fmt.Sprintf("n|%s|%s|%s", node, t, kk), Client: cl, In: regIn{false, 0}, Out: got, Call: call, Ret: ret, Kind: "read"})
 								record(&c20Op{Part: fmt.Sprintf("e|%s|%s|%s", node, t, kk), Client: cl, In: regIn{false, 0}, Out: gotE, Call: call, Ret: ret, Kind: "read"})
 							}
+						}
+					case roll < 96:
+						// a second placement for a node that other clients are writing to right now (mirror
+						// below the root or h-n1): the new edge's hash starts from the node's current content
+						x := nodes[1+cr.Intn(2)]
+						par := []string{in.RootID, nodes[0]}[cr.Intn(2)]
+						mu.Lock()
+						dup := par == parentOf[x] || mirrored[par+"/"+x]
+						mirrored[par+"/"+x] = true
+						mu.Unlock()
+						if dup {
+							continue
+						}
+						e, err := vlib.SendAck(nc, vlib.EdgeSubj(x, par), data.Points{{Type: data.PointTypeTombstone, Time: time.Unix(0, 1700000000e9)}, {Type: data.PointTypeNodeType, Text: "variable"}})
+						if err == nil && e != "" {
+							record(&c20Op{Part: "mirror", Client: cl, Kind: "write-refused:mirror " + e, Call: mono()})
+							continue
+						}
+						if err == nil {
+							c.Count("mirrors_made_under_load", 1)
 						}
 					case roll < 98:
 						// create a leaf below one of the nodes (edge first, then a point), concurrently with
